@@ -61,6 +61,10 @@ func Upgrade(ctx context.Context, c clientset.Interface, asc asclientset.Interfa
 		for key := range sts.Spec.Selector.MatchLabels {
 			delete(revision.Labels, key)
 		}
+		// a selector may also (or only) be written as expressions, e.g. `app In (web)`
+		for _, requirement := range sts.Spec.Selector.MatchExpressions {
+			delete(revision.Labels, requirement.Key)
+		}
 		revision.Labels[UpgradeToAdvancedStatefulSetAnn] = sts.Name
 		_, err = c.AppsV1().ControllerRevisions(revision.Namespace).Update(ctx, &revision, metav1.UpdateOptions{})
 		if err != nil {
